@@ -24,7 +24,10 @@ static const ccfg_t CFG[] = {
 	{ "EdDSA", JWT_ALG_EDDSA, "ed25519a", 1 },
 	{ "RS256", JWT_ALG_RS256, "rsa2048a", 1 },
 	{ "ES256", JWT_ALG_ES256, "p256a", 0 },
+	/* GnuTLS has no ES256K: there every call fails, sequentially and concurrently alike (the comparison is what counts) */
+	{ "ES256K", JWT_ALG_ES256K, "k256", 0 },
 };
+static int cfg_unsupported;   /* bit c set: configuration c does not work under the provider in force */
 #define NCFG ((int)(sizeof CFG / sizeof *CFG))
 /* mixed runs: the threads use different algorithms and keys (anything shared between two calls in flight shows as a wrong
  * key or algorithm in one of them); run index NCFG + m, thread t uses configuration MIX[m][t % 2] */
@@ -296,7 +299,9 @@ static void sequential_reference(void)
 			fresh_ring(c, 0);
 			rc_rng_reseed(424242);
 			body(&SEQ[c][t]);
-			if (SEQ[c][t].gen_failed || SEQ[c][t].r_own != 0 || SEQ[c][t].r_bad == 0 || SEQ[c][t].r_good != 0) {
+			if (CFG[c].alg == JWT_ALG_ES256K && !strcmp(jwt_get_crypto_ops(), "gnutls") && SEQ[c][t].gen_failed && SEQ[c][t].r_good != 0)
+				cfg_unsupported |= 1 << c;   /* refused throughout: the threads must be refused throughout as well */
+			else if (SEQ[c][t].gen_failed || SEQ[c][t].r_own != 0 || SEQ[c][t].r_bad == 0 || SEQ[c][t].r_good != 0) {
 				fprintf(stderr, "conc: sequential run of %s thread %d is not as expected (%d %d %d %d)\n", CFG[c].name, t, SEQ[c][t].gen_failed, SEQ[c][t].r_own,
 					SEQ[c][t].r_bad, SEQ[c][t].r_good);
 				exit(2);
